@@ -22,7 +22,7 @@ THEOREMS = [
     "Pattern.F7_brace_literal_throws", "Pattern.F7_double_brace_collapses", "Pattern.F7_empty_braces_steal_slot",
     "Pattern.C12_accepts", "Pattern.C12_rejects_unterminated", "Pattern.C12_rejects_unknown",
     "Pattern.C12_rejects_unknown_with_spec", "Pattern.C12_constructor_error_kinds", "Pattern.generate_never_fuel",
-    "Pattern.duplicate_attribute_throws",
+    "Pattern.duplicate_attribute_throws", "Pattern.C12_duplicate_attribute_always_throws",
     "Pattern.C12_multiline_on", "Pattern.C12_multiline_off", "Pattern.multiline_named_args_not_split",
     "Pattern.C12_statements_partial", "Pattern.C12_metadata_views", "Pattern.joinNamed_eq",
     "Pattern.C12_runtime_metadata", "Pattern.C12_runtime_metadata_views",
